@@ -218,7 +218,8 @@ class TypeGen:
             e = self.enum(r.choice(["Enum", "IntEnum", "StrEnum"]))
             member, mval = self.fam.defs[e[1]]["members"][0]
             # an enum member whose value equals a listed plain constant shares its wire form
-            if self.lit_conflate or not any(c[0] in "sib" and c[1] == mval for c in consts):
+            # (an enum member equal to a listed plain constant shares its wire form: never generated)
+            if not any(c[0] in "sib" and c[1] == mval for c in consts):
                 consts.append(("e", e[1], member))
         return ("lit", tuple(consts))
 
